@@ -123,7 +123,7 @@ theorem runBody_tr (env : Env) (f : Node → St → Res × St) (hf : CalleeTr f)
     intro hp s
     simp only [Proper] at hp
     simp only [runBody]
-    exact (Tr.of_sameExc (sameExc_noteRead s a r) .none).seq (ih _ (hp _) _)
+    exact (Tr.of_sameExc (sameExc_noteRead s (a && (env.refs r).isSome) r) .none).seq (ih _ (hp _) _)
   | call n k ih =>
     intro hp s
     simp only [Proper] at hp
